@@ -238,10 +238,10 @@ OPTS = {'metric': S.METRICS, 'r2': ['classic', 'adjusted'], 'distance': S.DISTAN
 
 
 @st.composite
-def dyn_cases(draw, tier):
-    names = sorted(n for n in TABLE)
+def dyn_cases(draw, tier, force_integral=False, names=None):
+    names = sorted(names or TABLE)
     fn = draw(st.sampled_from(names))
-    integral = draw(st.booleans())
+    integral = True if force_integral else draw(st.booleans())
     if integral:
         n = draw(st.integers(8, 24 if tier == 'quick' else 80))
         x = draw(S.xs(n, integer=True))
@@ -410,6 +410,46 @@ def oracle_dyn(case, rec):
         except Exception:
             sz = 1
         rec.nontrivial = sz > 0
+
+
+DTYPE_FOCUS = ['curvature.knee', 'curvature.multi_knee', 'dfdt.knee', 'dfdt.multi_knee', 'menger.knee', 'menger.multi_knee',
+               'lmethod.knee', 'lmethod.multi_knee', 'kneedle.knee', 'kneedle.knees', 'kneedle.multi_knee', 'rdp.rdp', 'rdp.grdp',
+               'rdp.rdp_fixed', 'rdp.mp_grdp', 'rdp.min_point_rdp', 'zmethod.knees', 'zmethod.knees2',
+               'postprocessing.filter_clusters', 'postprocessing.add_points_even', 'postprocessing.filter_corner_knees',
+               'evaluation.mae', 'evaluation.mse', 'evaluation.rmspe', 'evaluation.cm', 'evaluation.compute_global_cost',
+               'evaluation.mip', 'knee_ranking.smooth_ranking', 'knee_ranking.slope_ranking', 'convex_hull.graham_scan',
+               'clustering.average_linkage', 'clustering.centroid_linkage', 'linear_fit.linear_fit_points',
+               'linear_fit.shortest_distance_points', 'linear_fit.r2_points', 'evaluation.accuracy_trace']
+
+
+@st.composite
+def dtype_cases(draw, tier):
+    """Integer-valued curves through the entry points that take a whole curve: int64 vs float64."""
+    case = draw(dyn_cases(tier, force_integral=True, names=[n for n in DTYPE_FOCUS if n in TABLE]))
+    case['kind'] = 'dtype'
+    return case
+
+
+def oracle_dtype(case, rec):
+    fn = case['function']
+    funcs = public_functions()
+    rec.tag('dtype-fn:' + fn)
+    if fn not in funcs:
+        return
+    f = funcs[fn]
+    n0 = len(rec.violations)
+    out, b0, a0, _ = _invoke(rec, fn, f, case, 'C')
+    o2, b1, a1, _ = _invoke(rec, fn, f, case, 'int64')
+    del rec.violations[n0:]
+    if b0 != a0 or b1 != a1:
+        rec.fail('impure:%s' % fn, 'argument modified')
+    if (out is FAILED) != (o2 is FAILED):
+        rec.fail('layout:int64:%s' % fn, 'raises only for one of the int64 / float64 representations')
+    elif out is not FAILED:
+        d = same(out, o2, exact=False)
+        if d:
+            rec.fail('layout:int64:%s' % fn, d)
+        rec.nontrivial = True
 
 
 def uncovered_functions():
@@ -598,6 +638,7 @@ def examples_dyn(tier):
 
 SUBS = [
     Sub('dynamic', oracle_dyn, strategy=dyn_cases, budget={'quick': 4800, 'thorough': 96000}),
+    Sub('dtype', oracle_dtype, strategy=dtype_cases, budget={'quick': 4800, 'thorough': 96000}),
     Sub('linkage', oracle_link, enumerate=enumerate_sites, exhaustive=True, shards=4),
     Sub('gaps', oracle_gaps, enumerate=enumerate_dynamic_gaps, shards=1),
 ]
